@@ -759,6 +759,9 @@ def select__element_kind_test(self: XPathFunction, context: ta.ContextType = Non
                 yield cast(ElementNode, item)  # Already selected by sequence type test
             elif isinstance(item, ElementNode):
                 type_annotation = self[1].name
+                if not type_annotation and isinstance(self[1].value, str):
+                    # an unprefixed type name
+                    type_annotation = get_expanded_name(self[1].value, self.parser.namespaces)
                 if item.nilled:
                     if self[1].occurrence in ('*', '?'):
                         yield item
